@@ -62,6 +62,9 @@ def run(chk):
         explore(chk, 4, 2, 2)
     chk.exhaustive = True
     recorded(chk, 80 if thorough else 10)
+    if thorough:
+        from . import rux
+        rux.simulate(chk, 40, only={"chain", "registration-panic", "panic"})
     negs(chk, ["D_GroupAliasesCallerList", "D_NoRestoreMw", "D_UseLeaksToParent", "D_RouteMwBeforeGroup"] if thorough else ["D_GroupAliasesCallerList", "D_NoRestoreMw"])
 
 
